@@ -89,28 +89,57 @@ srv_harness! {
     }
 }
 
+/// Other first bytes (48-byte requests, serving policy): the LI bits of a request are ignored;
+/// everything that is not a v3/v4 client-mode request is dropped. Unrolled by macro (a
+/// harness-level loop would raise the unwind bound of every loop), five runs per harness (memory).
+macro_rules! first_byte_harness {
+    ($name:ident, $($b:expr => $answered:expr),*) => {
+        srv_harness! {
+            #[kani::unwind(3)]
+            fn $name() {
+                let mut msg: [u8; 48 + SLACK] = kani::any();
+                let env = Env::any().with(Policy::Serve);
+                let mut answered = 0;
+                let mut dropped = 0;
+                $(
+                    msg[0] = $b;
+                    let r = echo_plain(&msg[..48], &env);
+                    assert!(r.is_some() == $answered, "answered iff v3/v4 client request");
+                    if r.is_some() { answered += 1; } else { dropped += 1; }
+                )*
+                kani::cover!(answered + dropped == 5, "all five first bytes handled");
+            }
+        }
+    };
+}
+// LI 3 (v4, v3), v4 modes 0, 1, 2
+first_byte_harness!(c18_echo_first_byte_a, 0xE3 => true, 0xDB => true, 0x20 => false, 0x21 => false, 0x22 => false);
+// v4 modes 4..7, version 0
+first_byte_harness!(c18_echo_first_byte_b, 0x24 => false, 0x25 => false, 0x26 => false, 0x27 => false, 0x03 => false);
+// versions 1, 2, 6, 7 and a v5 request without draft identification
+first_byte_harness!(c18_echo_first_byte_c, 0x0B => false, 0x13 => false, 0x33 => false, 0x3B => false, 0x2B => false);
+
 srv_harness! {
     #[kani::unwind(3)]
-    fn c18_echo_first_byte() {
-        // other first bytes (48-byte requests, serving policy): LI 3; every other mode of v4;
-        // versions 0,1,2,6,7 and a v5 request without draft identification: LI is ignored,
-        // everything that is not a v3/v4 client request is dropped. Also MAC sizes 20/24 and two
-        // malformed lengths.
+    fn c18_echo_mac_sizes() {
+        // v4 request with a 20-byte and a 24-byte MAC
         let mut msg: [u8; 72 + SLACK] = kani::any();
         let env = Env::any().with(Policy::Serve);
-        // unrolled by macro: a harness-level loop would raise the unwind bound for every loop
-        macro_rules! first_bytes { ($($b:expr => $answered:expr),*) => { $(
-            msg[0] = $b;
-            let r = echo_plain(&msg[..48], &env);
-            assert!(r.is_some() == $answered, "answered iff v3/v4 client request");
-        )* } }
-        first_bytes!(0xE3 => true, 0xDB => true, 0x20 => false, 0x21 => false, 0x22 => false, 0x24 => false, 0x25 => false,
-            0x26 => false, 0x27 => false, 0x03 => false, 0x0B => false, 0x13 => false, 0x33 => false, 0x3B => false, 0x2B => false);
         msg[0] = 0x23;
         let r = echo_plain(&msg[..68], &env);
         kani::cover!(r == Some(Kind::Time), "20-byte MAC");
         let r = echo_plain(&msg[..72], &env);
         kani::cover!(r == Some(Kind::Time), "24-byte MAC");
+    }
+}
+
+srv_harness! {
+    #[kani::unwind(3)]
+    fn c18_echo_bad_sizes() {
+        // 47 and 50 bytes (malformed)
+        let mut msg: [u8; 52 + SLACK] = kani::any();
+        let env = Env::any().with(Policy::Serve);
+        msg[0] = 0x23;
         let r = echo_plain(&msg[..47], &env);
         kani::cover!(r.is_none(), "short datagram dropped");
         let r = echo_plain(&msg[..50], &env);
